@@ -75,7 +75,7 @@ type World struct {
 const (
 	OwnerOnt  = 8_000_000
 	StakerOnt = 8_000_000
-	ActorOng  = 50_000_000_000_000   // 50 000 ONG
+	ActorOng  = 50_000_000_000_000      // 50 000 ONG
 	OntCtrOng = 200_000_000_000_000_000 // ONG held by the ONT contract for governance unbinding (as on main net)
 )
 
